@@ -10,10 +10,10 @@ import (
 
 type cueRenderer struct {
 	nullableCtx bool
-	d          *Defs
-	out        *renderOut
-	useTime    bool
-	useStrings bool
+	d           *Defs
+	out         *renderOut
+	useTime     bool
+	useStrings  bool
 }
 
 func renderCUE(d *Defs, pkg string) renderOut {
